@@ -4,4 +4,5 @@ CONSTANTS
   CIDS = {"c1","c2"}
   MaxOps = 3
   MaxOut = 0
+  HandoffOrdered = TRUE
 INVARIANTS E2EInv AllocInv ErrorKept
